@@ -1,17 +1,17 @@
 package main
 
 import (
-	"strconv"
-	"encoding/binary"
 	"bufio"
 	"crypto/tls"
 	"encoding/base64"
+	"encoding/binary"
 	"fmt"
 	"io"
 	"math/rand"
 	"net"
 	"net/http"
 	"path/filepath"
+	"strconv"
 	"strings"
 	"time"
 
@@ -124,7 +124,7 @@ func streamC05(env *runEnv) {
 	users := map[string]string{"1": "pw1", "2": "pw2", "bas:ic": "p:w", "DOM\\1": "pwd", "9@corp": "pw9"}
 	type mech struct {
 		openid, kerberos, local, ntlm bool
-		alias bool // the local mechanism spelled "basic"
+		alias                         bool // the local mechanism spelled "basic"
 	}
 	subsets := []mech{
 		{false, false, true, false, false}, {false, false, false, true, false}, {false, true, false, false, false},
